@@ -313,7 +313,7 @@ def instance_strongin(repo):
     return '\n'.join(out) + '\n', names, info
 
 
-def simple_ties(repo, dims=(1, 2, 3, 4, 5)):
+def simple_ties(repo, dims=(1, 2, 3, 4, 5, 8, 13, 32)):
     """the expression obtained from Rastrigin/XSquared.Calculate for dimension n is the generic function (proved for all n)"""
     out = ['From IOptV Require Import Problems.Simple.']
     names = []
